@@ -139,7 +139,10 @@ def cases(tier):
                     out.append(Block(la=la, lb=lb, Ka=2, Kb=2, Ma=2, Mb=2,
                                      exps=[[str(E[(la + k) % 6]) for k in range(2)], [str(E[(lb + 3 + 2 * k) % 6]) for k in range(2)]]))
         for la, lb in [(0, 0), (1, 0), (1, 1), (2, 0)]:
-            out.append(Block(la=la, lb=lb, Ka=3, Kb=2, Ma=1, Mb=3))
+            if la + lb <= 1:
+                out.append(Block(la=la, lb=lb, Ka=3, Kb=2, Ma=1, Mb=3))
+            else:
+                out.append(Block(la=la, lb=lb, Ka=3, Kb=2, Ma=1, Mb=3, exps=[["3/2", "1/50", "5"], ["7/10", "11/4"]]))
         for l in (3, 4, 5):
             out.append(Public(ls=[l], types="c", Ks=[1], Ms=[1]))
             if l < 5:  # l = 5 spherical: 11 x 11 sums over 21 x 21 components with a dozen root atoms each - beyond 30 min
